@@ -4,6 +4,7 @@ import (
 	"bytes"
 	"fmt"
 	"math"
+	"runtime/debug"
 	"sort"
 	"strings"
 	"time"
@@ -786,8 +787,16 @@ func grammarShards(tier string) []mc.Shard {
 			m.Encode(&mapBlock)
 			zero := model.AppendVarfloat([]byte{1 << 2}, 0.5)
 			distinct := map[string]struct{}{}
-			try := func(stream []byte, blocks []blk, zeroW float64, withMap bool) bool {
+			try := func(stream []byte, blocks []blk, zeroW float64, withMap bool) (ok bool) {
 				mc.ProgressInput("decoding the stream", stream, 0)
+				defer func() {
+					if r := recover(); r != nil {
+						res.Violations = append(res.Violations, mc.Violation{Property: "C07", Clause: "C07.no-panic", Scenario: name, Seed: "stream",
+							History: []string{fmt.Sprintf("% x", stream), "any"},
+							Detail:  fmt.Sprintf("decoding the well-formed stream % x panicked: %v\n%s", stream, r, debug.Stack())})
+						ok = false
+					}
+				}()
 				for _, t := range codecTargets {
 					skip := false
 					for _, b := range blocks {
@@ -833,6 +842,40 @@ func grammarShards(tier string) []mc.Shard {
 				far := false
 				for _, b := range blocks {
 					far = far || b.farPaged
+				}
+				if !far {
+					// ... and into a paginated receiver whose pages (around every index of the
+					// grammar) were allocated and then cleared
+					pk := Kind{K: 'P'}
+					rcl := ddsketch.NewDDSketch(m, pk.New(), pk.New())
+					for _, i := range []int{-128, -96, -64, -32, 0, 32, 64, 96} { // eight adjacent pages: every slot of the page table in use
+						rcl.GetPositiveValueStore().AddWithCount(i, 2)
+						rcl.GetNegativeValueStore().AddWithCount(i, 2)
+					}
+					rcl.Clear()
+					errc := rcl.DecodeAndMergeWith(stream)
+					res.Evaluations++
+					expc := NewSkModel(pk, ms, m)
+					for _, b := range blocks {
+						for _, bin := range b.bins {
+							if b.neg {
+								expc.Neg.Add(int(bin.Index), bin.Count)
+							} else {
+								expc.Pos.Add(int(bin.Index), bin.Count)
+							}
+						}
+					}
+					expc.Zero = zeroW
+					if want := expc.Content(); errc != nil || SketchContent(rcl) != want {
+						got := "error: " + fmt.Sprint(errc)
+						if errc == nil {
+							got = SketchContent(rcl)
+						}
+						res.Violations = append(res.Violations, mc.Violation{Property: "C07", Clause: "C07.accepts-valid-streams", Scenario: name, Seed: "stream",
+							History: []string{fmt.Sprintf("% x", stream), "P-cleared-pages"},
+							Detail:  fmt.Sprintf("the well-formed stream % x merged into a cleared paginated receiver that had pages\n  got:  %s\n  want: %s", stream, got, want)})
+						return false
+					}
 				}
 				if !far {
 					pk := Kind{K: 'P'}
@@ -915,10 +958,15 @@ func grammarShards(tier string) []mc.Shard {
 			res.Count("grammar_second_blocks", int64(len(second)))
 			res.WallS = time.Since(start).Seconds()
 			return res
-		}, Replay: func(seed string, history []string) ([]mc.Fail, error) {
+		}, Replay: func(seed string, history []string) (fails []mc.Fail, err error) {
 			if len(history) < 2 {
 				return nil, fmt.Errorf("a grammar replay needs the stream and the target kind")
 			}
+			defer func() {
+				if r := recover(); r != nil {
+					fails = append(fails, mc.Fail{Clause: "C07.no-panic", Detail: fmt.Sprintf("decoding the stream %s panicked: %v", history[0], r)})
+				}
+			}()
 			var stream []byte
 			for _, f := range strings.Fields(history[0]) {
 				var x byte
@@ -931,9 +979,9 @@ func grammarShards(tier string) []mc.Shard {
 				return nil, fmt.Errorf("stream does not parse: %v", werr)
 			}
 			c := model.ContentOf(blocks)
-			var fails []mc.Fail
+
 			for _, t := range codecTargets {
-				if t.String() != history[1] {
+				if t.String() != history[1] && history[1] != "any" {
 					continue
 				}
 				var sup mapping.IndexMapping
@@ -953,7 +1001,28 @@ func grammarShards(tier string) []mc.Shard {
 					fails = append(fails, mc.Fail{Clause: "C07.accepts-valid-streams", Detail: fmt.Sprintf("stream % x into %s: err=%v want %s", stream, t, err, exp.Content())})
 				}
 			}
-			if history[1] == "P-with-100-buffered" {
+			if history[1] == "P-cleared-pages" || history[1] == "any" {
+				pk := Kind{K: 'P'}
+				rcl := ddsketch.NewDDSketch(m, pk.New(), pk.New())
+				for _, i := range []int{-128, -96, -64, -32, 0, 32, 64, 96} { // eight adjacent pages: every slot of the page table in use
+					rcl.GetPositiveValueStore().AddWithCount(i, 2)
+					rcl.GetNegativeValueStore().AddWithCount(i, 2)
+				}
+				rcl.Clear()
+				err := rcl.DecodeAndMergeWith(stream)
+				exp := NewSkModel(pk, ms, m)
+				for _, k := range sortedKeys(c.Pos) {
+					exp.Pos.Add(k, c.Pos[k])
+				}
+				for _, k := range sortedKeys(c.Neg) {
+					exp.Neg.Add(k, c.Neg[k])
+				}
+				exp.Zero = c.Zero
+				if err != nil || SketchContent(rcl) != exp.Content() {
+					fails = append(fails, mc.Fail{Clause: "C07.accepts-valid-streams", Detail: fmt.Sprintf("stream % x merged into a cleared paginated receiver that had pages: err=%v want %s", stream, err, exp.Content())})
+				}
+			}
+			if history[1] == "P-with-100-buffered" || history[1] == "any" {
 				pk := Kind{K: 'P'}
 				rc := ddsketch.NewDDSketch(m, pk.New(), pk.New())
 				exp := NewSkModel(pk, ms, m)
